@@ -67,7 +67,13 @@ func (p *c20) Gen(seed uint64, i int, tier string) (any, bool) {
 		nr := 1 + r.Intn(3)
 		var to []string
 		for k := 0; k < nr; k++ {
-			to = append(to, fmt.Sprintf("r%d-m%d@dest.example", k, m))
+			if r.Chance(1, 4) {
+				// a local part that has to be quoted on the wire; the error speaks of the
+				// address as the message has it
+				to = append(to, fmt.Sprintf(`"r%d%sm%d"@dest.example`, k, sim.Pick(r, []string{" q-", "(c)-", " ", ";"}), m))
+			} else {
+				to = append(to, fmt.Sprintf("r%d-m%d@dest.example", k, m))
+			}
 		}
 		batch = append(batch, SimpleMsg(fmt.Sprintf("m%d", m), to...))
 	}
@@ -75,6 +81,11 @@ func (p *c20) Gen(seed uint64, i int, tier string) (any, bool) {
 		Client: ClientCfg{TLSPolicy: "none"}}
 	if r.Chance(1, 4) {
 		sc.Op = "dialandsend"
+		if r.Chance(1, 3) {
+			// the clean-up after the send fails as well: the verdicts on the messages must
+			// still be what is reported
+			sc.Server.Rules = append(sc.Server.Rules, refsmtpd.Rule{Verb: "QUIT", Nth: 1, Action: sim.Pick(r, []refsmtpd.Action{{Code: 421, Text: "closing"}, {Code: 500, Text: "what?"}, {Kind: "drop"}})})
+		}
 	}
 	caps := []string{"8BITMIME"}
 	esc := false
@@ -101,7 +112,7 @@ func (p *c20) Gen(seed uint64, i int, tier string) (any, bool) {
 		esc = j%2 == 1
 		rc := r.Intn(len(batch[target].To))
 		sc.Label = fmt.Sprintf("%d/%s/%s/esc=%v", code, form, pos, esc)
-		sc.Server.Rules = []refsmtpd.Rule{{Verb: pos, Nth: nth(pos, target, rc), Action: c20Action(code, form)}}
+		sc.Server.Rules = append(sc.Server.Rules, refsmtpd.Rule{Verb: pos, Nth: nth(pos, target, rc), Action: c20Action(code, form)})
 	} else {
 		// several rejected recipients with different codes, possibly in several messages
 		esc = r.Chance(1, 2)
@@ -112,8 +123,8 @@ func (p *c20) Gen(seed uint64, i int, tier string) (any, bool) {
 			tgt := r.Intn(nm - 1)
 			pos := sim.Pick(r, []string{"MAIL", "RCPT", "DATA"})
 			sc.Label = "reject+rset/" + pos
-			sc.Server.Rules = []refsmtpd.Rule{{Verb: pos, Nth: nth(pos, tgt, 0), Action: c20Action(400+r.Intn(200), sim.Pick(r, c20Forms))},
-				{Verb: "RSET", Nth: tgt + 1, Action: sim.Pick(r, []refsmtpd.Action{c20Action(451, "enh"), c20Action(554, "plain"), {Kind: "drop"}})}}
+			sc.Server.Rules = append(sc.Server.Rules, refsmtpd.Rule{Verb: pos, Nth: nth(pos, tgt, 0), Action: c20Action(400+r.Intn(200), sim.Pick(r, c20Forms))},
+				refsmtpd.Rule{Verb: "RSET", Nth: tgt + 1, Action: sim.Pick(r, []refsmtpd.Action{c20Action(451, "enh"), c20Action(554, "plain"), {Kind: "drop"}})})
 			if esc {
 				caps = append(caps, "ENHANCEDSTATUSCODES")
 			}
@@ -422,7 +433,16 @@ func (p *c20) Exec(t *testing.T, scAny any) Outcome {
 		if n != failedMsgs {
 			out.violate("C20:join-count", "%d messages failed, the returned error has %d SendError entries: %v", failedMsgs, n, call.Err)
 		}
-		if failedMsgs == 0 && call.Err != nil {
+		quitScripted := false
+		for _, rl := range sc.Server.Rules {
+			if rl.Verb == "QUIT" {
+				quitScripted = true
+			}
+		}
+		if failedMsgs == 0 && call.Err != nil && quitScripted && n == 0 {
+			// every message was accepted and the scripted failure of QUIT is what is reported
+			out.stat("probe.only-the-quit-failed", 1)
+		} else if failedMsgs == 0 && call.Err != nil {
 			out.violate("C20:error-without-failure", "no message was refused but %s returned %v", call.Name, call.Err)
 		}
 	}
